@@ -286,6 +286,8 @@ def run(c, chk):
         sub = report.SubCheck(chk, 'R2.12', 'C13', only=('R13.2',))
         _c13.run(c, sub)
         sub.done('include stack bound')
+        # R2.18: no source - the empty one included - makes the scanner spin: its buffers have a positive size (rule R13.16 of C13)
+        _c13.buffer_sizes(c, chk, rid='R2.18')
     slot_width(c, chk)
     # R2.14: a 7-bit scanner indexes past its table rows for every byte >= 0x80 (the rule of C03 R3.8)
     from . import c03 as _c03
